@@ -386,8 +386,26 @@ fn toroidal_case<K: Kern<D>, const D: usize>(cx: &mut Ctx, r: &mut Rng, idx: usi
     };
     op_verdicts(&mut cx.tr, 0, &dt, 7);
     // later insertions are wrapped the same way
-    for _ in 0..3 {
-        let m: Vec<i64> = (0..D).map(|j| r.range(0, lm[j] - 1) + r.range(-3, 3) * lm[j]).collect();
+    for t in 0..5 {
+        let m: Vec<i64> = match t {
+            // exactly on the upper face of one axis (the period itself), everything else inside the box
+            3 => {
+                let ax = r.below(D);
+                (0..D).map(|j| if j == ax { lm[j] } else { r.range(0, lm[j] - 1) }).collect()
+            }
+            // faces and corners: every axis one of 0, L, L-1, -L, 2L or inside
+            4 => (0..D)
+                .map(|j| match r.below(6) {
+                    0 => 0,
+                    1 => lm[j],
+                    2 => lm[j] - 1,
+                    3 => -lm[j],
+                    4 => 2 * lm[j],
+                    _ => r.range(0, lm[j] - 1),
+                })
+                .collect(),
+            _ => (0..D).map(|j| r.range(0, lm[j] - 1) + r.range(-3, 3) * lm[j]).collect(),
+        };
         let v = VIn::lattice(cx.fresh_uuid(), m, Some(50));
         if !op_insert(&mut cx.tr, 0, &mut dt, &v, r.chance(1, 2)) {
             break;
@@ -438,6 +456,37 @@ fn det_construct<K: Kern<D>, const D: usize>(cx: &mut Ctx, pts: &[Vec<i64>], uui
     let r = op_construct::<K, D>(&mut cx.tr, 0, ctor, g, o, &input);
     cx.tr.dkey.clear();
     r
+}
+
+fn keytie_case<K: Kern<D>, const D: usize>(cx: &mut Ctx, r: &mut Rng, order: usize) {
+    cx.start_case(format!("C14 keyties D={D} k={} order={order}", K::NAME));
+    let w: i64 = 1 << 33;
+    let mut pts: Vec<Vec<i64>> = Vec::new();
+    for bits in 0..(1usize << D) {
+        pts.push((0..D).map(|j| ((bits >> j) & 1) as i64).collect());
+    }
+    for j in 0..D {
+        let mut p: Vec<i64> = (0..D).map(|i| 2 + ((i + j) % 3) as i64).collect();
+        p[j] = w;
+        pts.push(p);
+    }
+    let uuids: Vec<u64> = (0..pts.len()).map(|_| cx.fresh_uuid()).collect();
+    let o = Opts { order, dedup: 0, simplex: 0, retry: 0 };
+    let g = GUARANTEES[1];
+    let nperm = if cx.thorough { 24 } else { 8 };
+    let mut perms = crate::pure::permutations(pts.len(), nperm, r);
+    perms.insert(0, (0..pts.len()).collect());
+    perms.insert(1, (0..pts.len()).rev().collect());
+    for ctor in [Ctor::WithOptions, Ctor::WithKernel] {
+        if ctor == Ctor::WithKernel && order != 3 {
+            continue;
+        }
+        for p in &perms {
+            let pp: Vec<Vec<i64>> = p.iter().map(|&i| pts[i].clone()).collect();
+            let uu: Vec<u64> = p.iter().map(|&i| uuids[i]).collect();
+            det_construct::<K, D>(cx, &pp, &uu, ctor, g, o);
+        }
+    }
 }
 
 fn determinism_case<K: Kern<D>, const D: usize>(cx: &mut Ctx, r: &mut Rng, idx: usize) {
@@ -529,6 +578,19 @@ pub fn drive_determinism(cx: &mut Ctx, out_path: &str) {
             }
             let k = (i / 2) % 2;
             dispatch!(d, k, determinism_case(cx, &mut r, i));
+        }
+    }
+    // (f) ties in the ordering keys: a co-spherical cluster (corners of the unit cube) far below the
+    //     resolution of the Hilbert / Morton keys (outliers at 2^33 units), listed in different orders
+    for d in 2..=3usize {
+        for k in 0..2usize {
+            for oi in 0..4usize {
+                if !cx.mine() {
+                    continue;
+                }
+                let mut r = Rng::new(cx.seed * 8_000_011 + (d * 100 + k * 10 + oi) as u64);
+                dispatch!(d, k, keytie_case(cx, &mut r, oi));
+            }
         }
     }
     // (e) across processes: re-execute this trace's Construct events in a child process and append the
